@@ -12,13 +12,16 @@ What is proved here (model: FfcxModel/Determinism/Sites.lean, inventory: FfcxMod
   set's iteration order, for every total order that is antisymmetric on the keys present.
 * `site_invariant_<s>` for every canonicalised / order-oblivious / identity / counter site `s`:
   the text fragment is the same for ALL iteration orders (resp. all addresses, all counter offsets).
-* The model mirrors the code as it is.  For the sites where the FULL statement
+* The model mirrors the code as it is.  For a site where the FULL statement
       ∀ l s₁ s₂, IsSetIter l s₁ → IsSetIter l s₂ → site s₁ = site s₂        (all hash seeds)
-      ∀ k₁ k₂, site k₁ = site k₂                                              (all histories)
-  is false, `site_<s>_counterexample` proves its negation on a concrete witness and `site_<s>_partial`
-  proves what does hold (sets with at most one distinct element; resp. equal counter values; resp. the
-  CPython behaviour `Ascending` for int-hashed keys).  These are DESIGN §7 F9 and are replayed on the real
-  code by harness/props/c12.py with two PYTHONHASHSEEDs / two histories.
+  is false, `site_<s>_counterexample` proves its negation on a concrete witness and `site_<s>_partial` proves
+  what does hold.  Today this is only left for the two sets of int-hashed keys (`site_integral_domains`,
+  `site_int_argkeys`: canonical by the CPython detail `Ascending`, checked at run time).
+* DESIGN §7 F9 (fuse_sections / generate_block_parts comments, FE table numbering, J<ufl_id> symbols) and the
+  geometry-table order were such sites up to /repo commit 9fb79f1; after the fix commits d2dfc42, 7e76306,
+  e98a00c, 8598377 the model is the fixed code and the full-strength `site_invariant_fuse_inputs`,
+  `…_fuse_outputs`, `…_block_inputs`, `…_table_numbering`, `…_geometry_tables`, `…_jacobian_symbol` replace the
+  former counterexample/partial pairs.  `set_order_would_leak` records why a set must not come back.
 * `counters_fresh`, `site_invariant_temp_symbols`, `no_written_module_state`: no generator state survives
   a kernel, no module-level container is written.
 * `inventory_complete`: every site the scanner finds in the working tree is in `modelledSites`
@@ -210,7 +213,126 @@ theorem site_invariant_temp_symbols (pre₁ post₁ pre₂ post₂ : List (List 
 
 example : generateAll [["fw", "fw", "temp_"], ["fw"]] = [["fw0", "fw1", "temp_0"], ["fw0"]] := by decide
 
-/-! ## Order-leaking sites: the full statement fails; explicit witnesses and what does hold -/
+/-! ## The sites repaired by the F9 fix commits: full invariance -/
+
+/-- optimizer.py:62.  The `// Inputs:` comment of a fused section is a function of the concatenated input
+lists alone (no set, hence no hash seed): it lists the symbols with later duplicates removed, in order of first
+occurrence — the same symbols, each once, that the former `set` held. -/
+theorem site_invariant_fuse_inputs (input : List String) :
+    site_fuse_inputs input = inputsComment (dedupFirst input)
+    ∧ IsSetIter input (dedupFirst input)
+    ∧ (dedupFirst input).Sublist input
+    ∧ (input.Nodup → site_fuse_inputs input = inputsComment input) :=
+  ⟨rfl, dedupFirst_isSetIter input, dedupFirst_sublist input,
+    fun h => by unfold site_fuse_inputs; rw [dedupFirst_of_nodup input h]⟩
+
+/-- optimizer.py:64 (then `Section.__init__` completes the list with the declared symbols). -/
+theorem site_invariant_fuse_outputs (decls output : List String) :
+    site_fuse_outputs decls output = outputsComment (sectionOutput (dedupFirst output) decls)
+    ∧ IsSetIter output (dedupFirst output)
+    ∧ (dedupFirst output).Sublist output
+    ∧ (output.Nodup → site_fuse_outputs decls output = outputsComment (sectionOutput output decls)) :=
+  ⟨rfl, dedupFirst_isSetIter output, dedupFirst_sublist output,
+    fun h => by unfold site_fuse_outputs; rw [dedupFirst_of_nodup output h]⟩
+
+/-- integral_generator.py:585. -/
+theorem site_invariant_block_inputs (input : List String) :
+    site_block_inputs input = inputsComment (dedupFirst input)
+    ∧ IsSetIter input (dedupFirst input)
+    ∧ (dedupFirst input).Sublist input
+    ∧ (input.Nodup → site_block_inputs input = inputsComment input) :=
+  ⟨rfl, dedupFirst_isSetIter input, dedupFirst_sublist input,
+    fun h => by unfold site_block_inputs; rw [dedupFirst_of_nodup input h]⟩
+
+example : site_fuse_inputs ["w", "FE0_C0_F_Q4a8", "w"] = "// Inputs: w, FE0_C0_F_Q4a8" := by decide
+example : site_fuse_outputs ["w0_r0", "w0_r1"] ["w0_r1", "w0_r0", "w0_r1"] = "// Outputs: w0_r1, w0_r0" := by decide
+
+/-- elementtables.py:393-397.  The FE numbering is `sort_elements` applied to the first-occurrence
+de-duplication of the LIST `extract_sub_elements(all_elements)`: a function of that list alone, over the same
+elements (each once) as the former set. -/
+theorem site_invariant_table_numbering (subs : Elem → List Elem) (suffix : Elem → String)
+    (queries elems : List Elem) :
+    site_table_numbering subs suffix queries elems
+      = tableNumberingOfOrder subs suffix queries (dedupFirst elems)
+    ∧ IsSetIter elems (dedupFirst elems) ∧ (dedupFirst elems).Sublist elems :=
+  ⟨rfl, dedupFirst_isSetIter elems, dedupFirst_sublist elems⟩
+
+/-- P2 unknown (1), P1 coefficient (2), vector P1 coordinate element (4 ⊃ [3]): terminal order decides. -/
+example : site_table_numbering (fun e => if e = 4 then [3] else []) (fun _ => "C0_Q39d") [1, 2, 4]
+    [1, 2, 4, 1, 3] = ["FE3_C0_Q39d", "FE2_C0_Q39d", "FE1_C0_Q39d"] := by decide
+
+/-- Why a set must not come back (the pre-fix code, DESIGN F9): for an ARBITRARY node order the numbering — and for
+an arbitrary symbol order the comment — does depend on the order; two iteration orders of one set suffice. -/
+theorem set_order_would_leak :
+    (∃ subs suffix queries l s₁ s₂, IsSetIter l s₁ ∧ IsSetIter l s₂ ∧
+      tableNumberingOfOrder subs suffix queries s₁ ≠ tableNumberingOfOrder subs suffix queries s₂)
+    ∧ (∃ l s₁ s₂ : List String, IsSetIter l s₁ ∧ IsSetIter l s₂ ∧ inputsComment s₁ ≠ inputsComment s₂) := by
+  have iter_ab : ∀ {α : Type} [DecidableEq α] (a b : α), a ≠ b →
+      IsSetIter [a, b, a] [a, b] ∧ IsSetIter [a, b, a] [b, a] := by
+    intro α _ a b hab
+    refine ⟨⟨by simp [hab], fun x => ?_⟩, ⟨by simp [Ne.symm hab], fun x => ?_⟩⟩
+    · simp only [List.mem_cons, List.mem_nil_iff, or_false]
+      constructor
+      · rintro (h | h)
+        · exact Or.inl h
+        · exact Or.inr (Or.inl h)
+      · rintro (h | h | h)
+        · exact Or.inl h
+        · exact Or.inr h
+        · exact Or.inl h
+    · simp only [List.mem_cons, List.mem_nil_iff, or_false]
+      constructor
+      · rintro (h | h)
+        · exact Or.inr (Or.inl h)
+        · exact Or.inl h
+      · rintro (h | h | h)
+        · exact Or.inr h
+        · exact Or.inl h
+        · exact Or.inr h
+  exact ⟨⟨fun _ => [], fun e => if e = 0 then "C0_Q39d" else "C0_D10_Q39d", [0, 1], [0, 1, 0], [0, 1], [1, 0],
+      (iter_ab 0 1 (by decide)).1, (iter_ab 0 1 (by decide)).2, by decide⟩,
+    ⟨["w", "FE0_C0_F_Q4a8", "w"], ["w", "FE0_C0_F_Q4a8"], ["FE0_C0_F_Q4a8", "w"],
+      (iter_ab _ _ (by decide)).1, (iter_ab _ _ (by decide)).2, by decide⟩⟩
+
+/-- The sub-elements of ONE mixed element do not tie (Taylor–Hood alone: mixed = 2 ⊃ [0, 1]) … -/
+example : tableNumberingOfOrder (fun e => if e = 2 then [0, 1] else []) (fun _ => "C0") [0, 1, 2] [0, 1, 2]
+    = tableNumberingOfOrder (fun e => if e = 2 then [0, 1] else []) (fun _ => "C0") [0, 1, 2] [1, 0, 2] := by decide
+
+/-- … but two roots do: the mixed element 2 ⊃ [0, 1] and the vector coordinate element 4 ⊃ [3]. -/
+example : tableNumberingOfOrder (fun e => if e = 2 then [0, 1] else if e = 4 then [3] else []) (fun _ => "C0")
+      [0, 1, 2, 3, 4] [0, 1, 2, 3, 4]
+    ≠ tableNumberingOfOrder (fun e => if e = 2 then [0, 1] else if e = 4 then [3] else []) (fun _ => "C0")
+      [0, 1, 2, 3, 4] [4, 3, 2, 1, 0] := by decide
+
+/-- integral_generator.py:217-233 / expression_generator.py:74-93: `for c in sorted(cell_list)` — the tables
+of one geometry quantity come in the same order for ALL iteration orders of the set of cell names. -/
+theorem site_invariant_geometry_tables (name : String) (l s₁ s₂ : List String)
+    (h₁ : IsSetIter l s₁) (h₂ : IsSetIter l s₂) :
+    site_geometry_tables name s₁ = site_geometry_tables name s₂ := by
+  unfold site_geometry_tables
+  rw [dedup_sorted_canon strLe strLe_totalOrder.trans strLe_totalOrder.total l s₁ s₂
+    (fun a b _ _ => strLe_totalOrder.antisymm a b) h₁ h₂]
+
+example : site_geometry_tables "reference_cell_volume" ["triangle", "interval"]
+    = site_geometry_tables "reference_cell_volume" ["interval", "triangle"] :=
+  site_invariant_geometry_tables _ ["triangle", "interval"] _ _
+    ⟨by decide, fun x => Iff.rfl⟩
+    ⟨by decide, fun x => by simp only [List.mem_cons, List.mem_nil_iff, or_false]; exact Or.comm⟩
+
+/-- symbols.py:142-148.  The Jacobian symbol of domain `d` depends only on the order in which the kernel's
+`J_component` calls meet the domains, not on the values of UFL's global mesh counter: for EVERY injective
+renumbering `f` of the `ufl_id`s (a history offset `(· + k)`, meshes created in between, …) the name is the same. -/
+theorem site_invariant_jacobian_symbol (r : Option Bool) (c : Nat) (f : Nat → Nat)
+    (inj : ∀ a b, f a = f b → a = b) (uses : List Nat) (d : Nat) :
+    site_jacobian_symbol r c (uses.map f) (f d) = site_jacobian_symbol r c uses d := by
+  unfold site_jacobian_symbol domainNumber
+  rw [dedupFirst_map_inj f inj, idxOf_map_inj f inj]
+
+/-- fresh process (`ufl_id`s 0, 1) vs three meshes created before (3, 4): `J1_c2` both times. -/
+example : site_jacobian_symbol none 2 [0, 1, 0, 1] 1 = "J1_c2"
+    ∧ site_jacobian_symbol none 2 ([0, 1, 0, 1].map (· + 3)) (1 + 3) = "J1_c2" := by decide
+
+/-! ## Sets of int-hashed keys: canonical only by a CPython detail (counterexample + what holds) -/
 
 private theorem iter_ab {α : Type} [DecidableEq α] (a b : α) (hab : a ≠ b) :
     IsSetIter [a, b, a] [a, b] ∧ IsSetIter [a, b, a] [b, a] := by
@@ -235,93 +357,6 @@ private theorem iter_ab {α : Type} [DecidableEq α] (a b : α) (hab : a ≠ b) 
       · exact Or.inr h
       · exact Or.inl h
       · exact Or.inr h
-
-/-- optimizer.py:61 (F9). Witness = the Coefficient section of `jump/avg` P1 on a triangle:
-`// Inputs: w, FE0_C0_F_Q4a8` vs `// Inputs: FE0_C0_F_Q4a8, w`. -/
-theorem site_fuse_inputs_counterexample :
-    ∃ l s₁ s₂, IsSetIter l s₁ ∧ IsSetIter l s₂ ∧ site_fuse_inputs s₁ ≠ site_fuse_inputs s₂ :=
-  ⟨["w", "FE0_C0_F_Q4a8", "w"], ["w", "FE0_C0_F_Q4a8"], ["FE0_C0_F_Q4a8", "w"],
-    (iter_ab _ _ (by decide)).1, (iter_ab _ _ (by decide)).2, by decide⟩
-
-/-- FULL (false): ∀ l s₁ s₂, IsSetIter l s₁ → IsSetIter l s₂ → site_fuse_inputs s₁ = site_fuse_inputs s₂.
-Holds when the section has at most one distinct input symbol. -/
-theorem site_fuse_inputs_partial (l s₁ s₂ : List String) (hl : ∀ x y, x ∈ l → y ∈ l → x = y)
-    (h₁ : IsSetIter l s₁) (h₂ : IsSetIter l s₂) : site_fuse_inputs s₁ = site_fuse_inputs s₂ := by
-  rw [setIter_eq_of_subsingleton hl h₁ h₂]
-
-/-- optimizer.py:63 (F9): `// Outputs: w0_r0, w0_r1` vs `// Outputs: w0_r1, w0_r0`. -/
-theorem site_fuse_outputs_counterexample :
-    ∃ decls l s₁ s₂, IsSetIter l s₁ ∧ IsSetIter l s₂ ∧ site_fuse_outputs decls s₁ ≠ site_fuse_outputs decls s₂ :=
-  ⟨["w0_r0", "w0_r1"], ["w0_r0", "w0_r1", "w0_r0"], ["w0_r0", "w0_r1"], ["w0_r1", "w0_r0"],
-    (iter_ab _ _ (by decide)).1, (iter_ab _ _ (by decide)).2, by decide⟩
-
-/-- FULL (false): as above for `site_fuse_outputs decls`. Holds for at most one distinct output symbol. -/
-theorem site_fuse_outputs_partial (decls l s₁ s₂ : List String) (hl : ∀ x y, x ∈ l → y ∈ l → x = y)
-    (h₁ : IsSetIter l s₁) (h₂ : IsSetIter l s₂) : site_fuse_outputs decls s₁ = site_fuse_outputs decls s₂ := by
-  rw [setIter_eq_of_subsingleton hl h₁ h₂]
-
-/-- integral_generator.py:583 (F9): `// Inputs: fw0, FE0_C0_Q39d` vs `// Inputs: FE0_C0_Q39d, fw0`. -/
-theorem site_block_inputs_counterexample :
-    ∃ l s₁ s₂, IsSetIter l s₁ ∧ IsSetIter l s₂ ∧ site_block_inputs s₁ ≠ site_block_inputs s₂ :=
-  ⟨["fw0", "FE0_C0_Q39d", "fw0"], ["fw0", "FE0_C0_Q39d"], ["FE0_C0_Q39d", "fw0"],
-    (iter_ab _ _ (by decide)).1, (iter_ab _ _ (by decide)).2, by decide⟩
-
-/-- FULL (false): ∀ l s₁ s₂, IsSetIter l s₁ → IsSetIter l s₂ → site_block_inputs s₁ = site_block_inputs s₂. -/
-theorem site_block_inputs_partial (l s₁ s₂ : List String) (hl : ∀ x y, x ∈ l → y ∈ l → x = y)
-    (h₁ : IsSetIter l s₁) (h₂ : IsSetIter l s₂) : site_block_inputs s₁ = site_block_inputs s₂ := by
-  rw [setIter_eq_of_subsingleton hl h₁ h₂]
-
-/-- elementtables.py:393-396 (F9): two unrelated elements (e.g. the P2 of the unknown and the P1 of the
-coordinates) — `sort_elements` keeps the set order between them, so the FE numbers swap:
-`FE1_C0_Q39d, FE0_C0_D10_Q39d` vs `FE0_C0_Q39d, FE1_C0_D10_Q39d`. -/
-theorem site_table_numbering_counterexample :
-    ∃ subs suffix queries l s₁ s₂, IsSetIter l s₁ ∧ IsSetIter l s₂ ∧
-      site_table_numbering subs suffix queries s₁ ≠ site_table_numbering subs suffix queries s₂ :=
-  ⟨fun _ => [], fun e => if e = 0 then "C0_Q39d" else "C0_D10_Q39d", [0, 1], [0, 1, 0], [0, 1], [1, 0],
-    (iter_ab _ _ (by decide)).1, (iter_ab _ _ (by decide)).2, by decide⟩
-
-/-- The sub-elements of ONE mixed element do not tie (Taylor–Hood alone: mixed = 2 ⊃ [0, 1]; the order of
-`sub_elements` decides) … -/
-example : site_table_numbering (fun e => if e = 2 then [0, 1] else []) (fun _ => "C0") [0, 1, 2] [0, 1, 2]
-    = site_table_numbering (fun e => if e = 2 then [0, 1] else []) (fun _ => "C0") [0, 1, 2] [1, 0, 2] := by decide
-
-/-- … but two roots do: the mixed element 2 ⊃ [0, 1] and the vector coordinate element 4 ⊃ [3]
-(every real form has both). -/
-example : site_table_numbering (fun e => if e = 2 then [0, 1] else if e = 4 then [3] else []) (fun _ => "C0")
-      [0, 1, 2, 3, 4] [0, 1, 2, 3, 4]
-    ≠ site_table_numbering (fun e => if e = 2 then [0, 1] else if e = 4 then [3] else []) (fun _ => "C0")
-      [0, 1, 2, 3, 4] [4, 3, 2, 1, 0] := by decide
-
-/-- FULL (false): ∀ subs suffix queries l s₁ s₂, IsSetIter l s₁ → IsSetIter l s₂ → site_table_numbering … s₁ = … s₂.
-Holds when the integral involves at most one element (then there is nothing to tie). -/
-theorem site_table_numbering_partial (subs : Elem → List Elem) (suffix : Elem → String) (queries l s₁ s₂ : List Elem)
-    (hl : ∀ x y, x ∈ l → y ∈ l → x = y) (h₁ : IsSetIter l s₁) (h₂ : IsSetIter l s₂) :
-    site_table_numbering subs suffix queries s₁ = site_table_numbering subs suffix queries s₂ := by
-  rw [setIter_eq_of_subsingleton hl h₁ h₂]
-
-/-- symbols.py:141 (F9): the Jacobian symbols carry UFL's global mesh counter:
-`J0_c0` in a fresh process, `J3_c0` when three meshes were created before. -/
-theorem site_jacobian_symbol_counterexample :
-    ∃ r c k₁ k₂, site_jacobian_symbol r c k₁ ≠ site_jacobian_symbol r c k₂ :=
-  ⟨none, 0, 0, 3, by decide⟩
-
-/-- FULL (false): ∀ r c k₁ k₂, site_jacobian_symbol r c k₁ = site_jacobian_symbol r c k₂  (all histories).
-Holds only for equal counter values, i.e. when the same number of meshes was created before. -/
-theorem site_jacobian_symbol_partial (r : Option Bool) (c k₁ k₂ : Nat) (h : k₁ = k₂) :
-    site_jacobian_symbol r c k₁ = site_jacobian_symbol r c k₂ := by rw [h]
-
-/-- integral_generator.py:217-232 / expression_generator.py:74-92: one geometry quantity on two cell names
-(only possible with two domains in one integrand). -/
-theorem site_geometry_tables_counterexample :
-    ∃ name l s₁ s₂, IsSetIter l s₁ ∧ IsSetIter l s₂ ∧ site_geometry_tables name s₁ ≠ site_geometry_tables name s₂ :=
-  ⟨"reference_cell_volume", ["triangle", "interval", "triangle"], ["triangle", "interval"], ["interval", "triangle"],
-    (iter_ab _ _ (by decide)).1, (iter_ab _ _ (by decide)).2, by decide⟩
-
-/-- FULL (false): ∀ name l s₁ s₂, IsSetIter l s₁ → IsSetIter l s₂ → site_geometry_tables name s₁ = … s₂.
-Holds for single-domain integrals (one cell name per quantity). -/
-theorem site_geometry_tables_partial (name : String) (l s₁ s₂ : List String) (hl : ∀ x y, x ∈ l → y ∈ l → x = y)
-    (h₁ : IsSetIter l s₁) (h₂ : IsSetIter l s₂) : site_geometry_tables name s₁ = site_geometry_tables name s₂ := by
-  rw [setIter_eq_of_subsingleton hl h₁ h₂]
 
 /-- representation.py:274 / codegeneration.py:59: prism facets {triangle = 2, quadrilateral = 4}: the language
 does not fix the order, and the kernel order follows it. -/
@@ -370,18 +405,13 @@ def provedTheorems : List (String × Lean.Name) := [
   ("site_invariant_index_position", ``site_invariant_index_position),
   ("site_invariant_temp_symbols", ``site_invariant_temp_symbols),
   ("counters_fresh", ``counters_fresh),
-  ("site_fuse_inputs_counterexample", ``site_fuse_inputs_counterexample),
-  ("site_fuse_inputs_partial", ``site_fuse_inputs_partial),
-  ("site_fuse_outputs_counterexample", ``site_fuse_outputs_counterexample),
-  ("site_fuse_outputs_partial", ``site_fuse_outputs_partial),
-  ("site_block_inputs_counterexample", ``site_block_inputs_counterexample),
-  ("site_block_inputs_partial", ``site_block_inputs_partial),
-  ("site_table_numbering_counterexample", ``site_table_numbering_counterexample),
-  ("site_table_numbering_partial", ``site_table_numbering_partial),
-  ("site_jacobian_symbol_counterexample", ``site_jacobian_symbol_counterexample),
-  ("site_jacobian_symbol_partial", ``site_jacobian_symbol_partial),
-  ("site_geometry_tables_counterexample", ``site_geometry_tables_counterexample),
-  ("site_geometry_tables_partial", ``site_geometry_tables_partial),
+  ("site_invariant_fuse_inputs", ``site_invariant_fuse_inputs),
+  ("site_invariant_fuse_outputs", ``site_invariant_fuse_outputs),
+  ("site_invariant_block_inputs", ``site_invariant_block_inputs),
+  ("site_invariant_table_numbering", ``site_invariant_table_numbering),
+  ("site_invariant_geometry_tables", ``site_invariant_geometry_tables),
+  ("site_invariant_jacobian_symbol", ``site_invariant_jacobian_symbol),
+  ("set_order_would_leak", ``set_order_would_leak),
   ("site_integral_domains_counterexample", ``site_integral_domains_counterexample),
   ("site_integral_domains_partial", ``site_integral_domains_partial),
   ("site_int_argkeys_counterexample", ``site_int_argkeys_counterexample),
@@ -393,6 +423,11 @@ def provedTheorems : List (String × Lean.Name) := [
 A new site, or a modelled site whose statement was edited, makes this `decide` fail. -/
 theorem inventory_complete :
     ∀ s ∈ Generated.sites, s.key ∈ modelledSites.map (·.key) := by decide
+
+/-- Conversely, every row of the model table is a statement that exists in the working tree: a modelled
+statement that was edited or removed (even into something that is no site any more) is noticed. -/
+theorem inventory_no_stale :
+    ∀ m ∈ modelledSites, m.key ∈ Generated.sites.map (·.key) := by decide
 
 /-- No module-level container of ffcx is ever written after import: every `module-state` record is `const`
 and the scanner found no `module-state-write` / `global` statement, no `itertools.count`, no class-level state. -/
@@ -417,8 +452,8 @@ theorem modelled_sites_have_theorems :
       ∧ ((m.cls = SiteClass.canon ∨ m.cls = SiteClass.oblivious ∨ m.cls = SiteClass.identity
           ∨ m.cls = SiteClass.counter ∨ m.cls = SiteClass.hashdef) → m.theorems ≠ []) := by decide
 
--- non-vacuity of the inventory: it is not empty and contains the F9 sites
+-- non-vacuity of the inventory: it is not empty and contains the (repaired) F9 sites
 example : Generated.sites.length ≥ 60 := by decide
-example : ("ffcx/codegeneration/optimizer.py", "fuse_sections", "35311c869c34") ∈ Generated.sites.map (·.key) := by decide
+example : ("ffcx/codegeneration/optimizer.py", "fuse_sections", "340a3597d3e9") ∈ Generated.sites.map (·.key) := by decide
 
 end Ffcx.C12
